@@ -416,6 +416,10 @@ def s_templates(tier):
               {"sig": SIG1, "rt": ["Qint[4]"], "l1": ["1", "a", "a + b"], "l2": ["3", "b"], "init": ["0", "a"], "op": OPs}))
     T.append(("def tfun(a: bool, b: bool, c: bool) -> bool:\n    d = {init}\n    for i in range({k}):\n        d = {e}\n    return d\n",
               {"init": ["False", "True", "a"], "k": ["0", "1", "2", "3", "5"], "e": ["not d", "d ^ b", "d and c", "(d or a) ^ c", "a if d else b"]}))
+    T.append(("def tfun({sig}) -> {rt}:\n    c = 0\n    for i in range(3):\n        if i {cmp} {k}:\n            c += {l}\n    return c\n",
+              {"sig": SIG1, "rt": ["Qint[4]"], "cmp": CMPS, "k": ["0", "1", "2"], "l": ["1", "a"]}))
+    T.append(("def tfun({sig}) -> {rt}:\n    c = b\n    for x in [0, 2, 3]:\n        c = (c + 1) if x {cmp} 2 else (c ^ a)\n    return c\n",
+              {"sig": SIG1, "rt": ["Qint[4]"], "cmp": CMPS}))
     # list-constant lookups
     LST = ["[1, 3, 2, 0]", "[0, 1, 2, 3]", "[3, 3, 0, 1]", "[2, 0, 1, 5]"]
     T.append(("def tfun({sig}) -> {rt}:\n    c = {lst}\n    return c[a]\n", {"sig": ["a: Qint[2]", "a: Qint[2], b: Qint[2]"], "rt": RT, "lst": LST}))
@@ -549,10 +553,14 @@ def t_templates(tier):
     T.append(("def tfun(a: Tuple[{t0}, {t1}]) -> Tuple[{t0}, {t1}]:\n    return a\n", {"t0": ["bool", "Qint[2]"], "t1": ["bool", "Qint[2]"]}))
     T.append(("def tfun(a: Tuple[{t0}, {t1}]) -> Tuple[{t1}, {t0}]:\n    return (a[1], a[0])\n", {"t0": ["bool", "Qint[2]"], "t1": ["bool", "Qint[2]"]}))
     T.append(("def tfun(a: Tuple[{t0}, {t1}]) -> Tuple[{t0}, {t1}]:\n    b = a\n    return b\n", {"t0": ["bool", "Qint[2]"], "t1": ["bool", "Qint[2]"]}))
+    T.append(("def tfun({sig}) -> {rt}:\n    a = {f}(a, {y})\n    return a\n",
+              {"sig": ["a: Qint[2], b: Qint[2]", "a: Qint[4], b: Qint[2]"], "rt": ["Qint[4]"], "f": ["max", "min"], "y": ["b", "2", "a + 1"]}))
     T.append(("def tfun(a: Tuple[{t0}, {t1}], c: bool) -> Tuple[{t0}, {t1}]:\n    b = ({x}, {y})\n    return {r}\n",
               {"t0": ["bool"], "t1": ["bool"], "x": ["a[1]", "c", "not a[0]"], "y": ["a[0]", "c and a[1]"], "r": ["b", "(b if c else a)", "(b[1], b[0])"]}))
     T.append(("def tfun(a: Tuple[{t0}, {t1}], c: bool) -> {t1}:\n    b = a\n    return b[1]\n", {"t0": ["bool", "Qint[2]"], "t1": ["bool", "Qint[2]"]}))
     T.append(("def tfun(a: Tuple[Tuple[bool, Qint[2]], Qint[2]]) -> Qint[2]:\n    b = a\n    c = b[0]\n    return c[1] + b[1]\n", {}))
+    T.append(("def tfun(a: Tuple[{t0}, {t1}], c: bool) -> Tuple[Tuple[{t0}, {t1}], bool]:\n    t = a\n    return ({x}, c)\n", {"t0": ["bool", "Qint[2]"], "t1": ["bool", "Qint[2]"], "x": ["t", "a"]}))
+    T.append(("def tfun(a: Tuple[Tuple[bool, Qint[2]], bool]) -> Tuple[bool, Tuple[bool, Qint[2]]]:\n    return (a[1], a[0])\n", {}))
     T.append(("def tfun(a: Qlist[bool, 2]) -> Qlist[bool, 2]:\n    {body}\n", {"body": ["return a", "return [a[1], a[0]]", "return [a[0], a[0]]", "b = a\n    return b", "return [not a[0], a[0] and a[1]]"]}))
     T.append(("def tfun(a: Qmatrix[bool, 2, 2]) -> Qmatrix[bool, 2, 2]:\n    {body}\n",
               {"body": ["return a", "return [[a[0][0], a[1][0]], [a[0][1], a[1][1]]]", "return [[a[1][1], a[1][0]], [a[0][1], a[0][0]]]"]}))
@@ -597,6 +605,11 @@ def t_templates(tier):
     T.append(("def tfun(a: Qfixed[{i}, {f}]) -> Qfixed[{i}, {f}]:\n    return float(a)\n", {"i": ["1", "2"], "f": ["2"]}))
     T.append(("def tfun(a: Qint[2]) -> Qfixed[2, {f}]:\n    return float(a)\n", {"f": ["2", "3"]}))
     T.append(("def tfun(a: Qint[2]) -> Qint[2]:\n    return int(a)\n", {}))
+    # wide integer parts (3 and 4 bits): every value is a row, so every integer part >= 6 is encoded and decoded
+    T.append(("def tfun(a: Qfixed[{i}]) -> Qfixed[{i}]:\n    return {e}\n", {"i": ["3, 3", "4, 4"], "e": ["a", "a + 0.5", "a + a"]}))
+    T.append(("def tfun(a: Qfixed[{i}]) -> bool:\n    return a {c} {k}\n", {"i": ["3, 3", "4, 4"], "c": [">", "==", "<="], "k": ["0.5", "5.5", "6.5", "7.0"]}))
+    T.append(("def tfun(a: Qfixed[4, 4]) -> bool:\n    return a {c} {k}\n", {"c": [">", "=="], "k": ["8.5", "12.25"]}))
+    T.append(("def tfun(a: Qfixed[3, 3], b: bool) -> Tuple[Qfixed[3, 3], bool]:\n    return (a, not b)\n", {}))
     return T
 
 
@@ -689,8 +702,37 @@ def r_cases(shard):
 
 
 # ----------------------------------------------------------------------------------------
+# Family M: straight-line boolean programs with temporaries (a value computed once, read by another temporary, possibly
+# overwritten, the same sub-expression occurring again as a whole statement) and two results
+# ----------------------------------------------------------------------------------------
+def m_templates(tier):
+    E1 = ["a and b", "a != b", "a or b", "c and (a != b)", "not a", "a ^ b ^ c"]
+    E2 = ["t and c", "t != d", "t or c", "c and (a != b)", "not t", "(a != b) or d"]
+    MID = ["", "    t = not t\n", "    t = t != c\n", "    u = not u\n", "    t = u\n"]
+    R = ["t, u", "t, u != d", "a != b, t != d", "u, t", "t and u, t", "a != b, u", "u != d, t"]
+    T = [("def tfun(a: bool, b: bool, c: bool, d: bool) -> Tuple[bool, bool]:\n    t = {e1}\n    u = {e2}\n{mid}    return {r}\n",
+          {"e1": E1, "e2": E2, "mid": MID, "r": R})]
+    if tier == "thorough":
+        T.append(("def tfun(a: bool, b: bool, c: bool, d: bool) -> Tuple[bool, bool, bool]:\n    t = {e1}\n    u = {e2}\n{mid}    v = {e3}\n{mid2}    return {r}, v\n",
+                  {"e1": E1, "e2": E2, "mid": MID[:3], "e3": ["t and u", "u != a", "(a != b) and d", "not u"], "mid2": ["", "    v = not v\n", "    u = not u\n"], "r": R[:5]}))
+    return T
+
+
+def m_shards(tier):
+    out = _tmpl_shards("M", m_templates(tier), 42)
+    for d in out:
+        d["tier"] = tier
+    return out
+
+
+def m_cases(shard):
+    for src in _tmpl_cases(m_templates(shard["tier"]), shard):
+        yield {"src": src, "fam": "M"}
+
+
+# ----------------------------------------------------------------------------------------
 FAMILIES = {"B": (b_shards, b_cases), "I1": (i1_shards, i1_cases), "S": (s_shards, s_cases),
-            "T": (t_shards, t_cases), "R": (r_shards, r_cases)}
+            "T": (t_shards, t_cases), "R": (r_shards, r_cases), "M": (m_shards, m_cases)}
 
 
 def prog_shards(families, tier):
